@@ -16,6 +16,7 @@ RULE = (
     "values as distinct objects, numpy ints) x mesh types (structured, unstructured, meshio points/centroids) x permutations, "
     "subsets, splits; histories <= 8 steps of in-place parameter changes (incl. 1-ulp and tiny-magnitude changes), generator "
     "settings, restorations, model re-assignment. Non-trivial = at least one comparison between differently obtained values"
+    " Re-seeding with neighbouring seed values."
 )
 ASSUMPTIONS = ["a generator freshly constructed from a deep copy of the current model with the current settings and seed is the reference"]
 LEVEL_TEXT = (
